@@ -15,7 +15,12 @@ used up. Odd shards start from an empty corpus, even ones from the seeds. The se
 case is a JSON case like any other and is replayed with `./check <ID> --replay`.
 
 libFuzzer's `-seed` pins a campaign only approximately; what is reproducible is the saved case.
-Child protocol: python -m vlib.fuzz <module> <kind> <runs> <seed> <shard> <out.pickle>
+A second mode drives STRUCTURED generators: a module exposes `GUIDED = {kind: zero-argument function returning a Hypothesis strategy of cases}` and calls
+`ctx.run_atheris(kind, runs, guided=True)`; the child wraps `@given(strategy)` around the check and hands `test.hypothesis.fuzz_one_input` to libFuzzer, so the
+byte string libFuzzer mutates is Hypothesis' choice sequence and coverage feedback steers the grammar-directed generators (scripts, documents, histories of options).
+All shards start from a few pseudo-random blobs there (the byte format is Hypothesis' own; strings too short to build a case are rejected as overruns).
+
+Child protocol: python -m vlib.fuzz <module> <kind> <runs> <seed> <shard> <out.pickle> [guided]
 """
 import os, sys, pickle, subprocess, tempfile, shutil, time
 
@@ -30,9 +35,8 @@ def available():
         return False
 
 
-def run_parent(ctx, kind, runs, nprocs):
+def run_parent(ctx, kind, runs, nprocs, guided=False):
     from vlib import core
-    spec = ctx.mod.FUZZ[kind]
     tmp = tempfile.mkdtemp(prefix='vfuzz-')
     t0 = time.time()
     try:
@@ -42,7 +46,7 @@ def run_parent(ctx, kind, runs, nprocs):
         for k in range(nprocs):
             out = os.path.join(tmp, 'out-%d.pickle' % k)
             log = open(os.path.join(tmp, 'log-%d.txt' % k), 'wb')
-            p = subprocess.Popen([sys.executable, '-m', 'vlib.fuzz', ctx.mod.__name__, kind, str(runs), str(ctx.seed), str(k), out],
+            p = subprocess.Popen([sys.executable, '-m', 'vlib.fuzz', ctx.mod.__name__, kind, str(runs), str(ctx.seed), str(k), out] + (['guided'] if guided else []),
                                  cwd=tmp, env=env, stdout=log, stderr=subprocess.STDOUT)
             procs.append((p, out, log, k))
         total_cov = 0
@@ -58,14 +62,16 @@ def run_parent(ctx, kind, runs, nprocs):
             ctx.rec.merge(d)
             ctx.rec.classes['atheris-executions'] += meta['execs']
             ctx.rec.classes['atheris-outside-domain'] += meta['undecodable']
-        ctx.note('atheris %s: %d children × %d executions (half from an empty corpus, half seeded), largest evolved corpus %d inputs, %.0fs'
-                 % (kind, nprocs, runs, total_cov, time.time() - t0))
+        ctx.note('atheris %s%s: %d children × %d executions (%s), largest evolved corpus %d inputs, %.0fs'
+                 % (kind, ' [Hypothesis strategy under libFuzzer]' if guided else '', nprocs, runs,
+                    'from pseudo-random blobs' if guided else 'half from an empty corpus, half seeded', total_cov, time.time() - t0))
     finally:
         shutil.rmtree(tmp, ignore_errors=True)
 
 
 def child(argv):
     mod_name, kind, runs, seed, shard, out = argv[0], argv[1], int(argv[2]), int(argv[3]), int(argv[4]), argv[5]
+    guided = len(argv) > 6 and argv[6] == 'guided'
     sys.dont_write_bytecode = True
     import atheris
     from vlib import core
@@ -79,18 +85,26 @@ def child(argv):
     assert os.path.abspath(emmet.__file__).startswith(os.path.abspath(repo) + os.sep), emmet.__file__
     import signal
     signal.signal(signal.SIGPROF, core._on_prof)
-    spec = mod.FUZZ[kind]
-    decode = spec['decode']
+    spec = {'max_len': 4096} if guided else mod.FUZZ[kind]
+    decode = None if guided else spec['decode']
     checks = mod.CHECKS
     rec = core.Rec(mod.PROP_ID)
     corpus = os.path.join(os.getcwd(), 'corpus-%d' % shard)
     os.makedirs(corpus, exist_ok=True)
-    if shard % 2 == 0 and spec.get('seeds'):
+    if guided:
+        # Hypothesis reads its choices from the byte string: an empty corpus only yields strings too short to build a case ("overrun"),
+        # so the starting corpus is a handful of pseudo-random blobs (a pure function of seed and shard)
+        import random
+        r = random.Random('%d/%d/guided' % (seed, shard))
+        for i in range(24):
+            with open(os.path.join(corpus, 'blob-%02d' % i), 'wb') as fh:
+                fh.write(bytes(r.getrandbits(8) for _ in range(r.choice((64, 128, 256, 512, 1024)))))
+    if not guided and shard % 2 == 0 and spec.get('seeds'):
         for i, b in enumerate(spec['seeds']()):
             with open(os.path.join(corpus, 'seed-%05d' % i), 'wb') as fh:
                 fh.write(b)
     args = [sys.argv[0], corpus, '-runs=%d' % (runs * 4), '-seed=%d' % (seed * 1000 + shard + 1), '-max_len=%d' % spec.get('max_len', 64),
-            '-timeout=600', '-rss_limit_mb=4096', '-print_final_stats=0', '-verbosity=0', '-len_control=20']
+            '-timeout=600', '-rss_limit_mb=4096', '-print_final_stats=0', '-verbosity=0', '-len_control=%d' % (0 if guided else 20)]
     if spec.get('dict'):
         dpath = os.path.join(os.getcwd(), 'dict-%d.txt' % shard)
         with open(dpath, 'w', encoding='ascii') as fh:
@@ -112,6 +126,25 @@ def child(argv):
         os.replace(out + '.tmp', out)
         sys.stdout.flush()
         os._exit(0)
+
+    if guided:
+        from hypothesis import given, settings, HealthCheck
+
+        @settings(database=None, deadline=None, suppress_health_check=list(HealthCheck))
+        @given(mod.GUIDED[kind]())
+        def test(case):
+            rec.run_case(checks, kind, case)
+        fuzz_one = test.hypothesis.fuzz_one_input
+
+        def one_guided(data):
+            state['execs'] += 1
+            if fuzz_one(data) is None:
+                state['undecodable'] += 1       # choice sequence rejected by the strategy (filter / too short)
+            if state['execs'] >= runs:
+                finish()
+        atheris.Setup(args, one_guided)
+        atheris.Fuzz()
+        finish()
 
     def one(data):
         # libFuzzer first replays the starting corpus; those executions count too
